@@ -302,15 +302,32 @@ def maxlen_position_cases():
     the peer's announcement.  Known finding D24: both take `user_data[0]`."""
     from pynetdicom2 import asceprovider, pdu, userdataitems
     out = []
-    for order in ('impl-first', 'maxlen-last-of-three'):
-        subs = [userdataitems.ImplementationClassUIDSubItem('1.2.3.4'), userdataitems.MaximumLengthSubItem(4096)]
+    for order, own, announced in [('impl-first', 16384, 4096), ('maxlen-last-of-three', 16384, 4096),
+                                  ('maxlen-middle-of-five', 16384, 4096), ('impl-first', 0, 4096), ('impl-first', 128, 0),
+                                  ('maxlen-last-of-three', 4096, 2 ** 32 - 1), ('absent', 16384, None), ('absent', 0, None),
+                                  ('only-maxlen', 16384, 4096), ('empty', 16384, None)]:
+        subs = [userdataitems.ImplementationClassUIDSubItem('1.2.3.4'), userdataitems.MaximumLengthSubItem(announced or 0)]
         if order == 'maxlen-last-of-three':
             subs.insert(1, userdataitems.ImplementationVersionNameSubItem('V1'))
+        elif order == 'maxlen-middle-of-five':
+            subs = [userdataitems.ImplementationClassUIDSubItem('1.2.3.4'), userdataitems.AsynchronousOperationsWindowSubItem(1, 1),
+                    userdataitems.MaximumLengthSubItem(announced), userdataitems.ImplementationVersionNameSubItem('V1'),
+                    userdataitems.ScpScuRoleSelectionSubItem('1.2.840.10008.1.1', 1, 0)]
+        elif order == 'absent':
+            subs = [userdataitems.ImplementationClassUIDSubItem('1.2.3.4'), userdataitems.ImplementationVersionNameSubItem('V1')]
+        elif order == 'only-maxlen':
+            subs = [userdataitems.MaximumLengthSubItem(announced)]
+        elif order == 'empty':
+            subs = []
+        # what the side must send within: its own maximum limited by the peer's announcement; 0 = no limit; nothing
+        # announced = no limit
+        peer = announced or 0
+        want = peer if not own else own if not peer else min(own, peer)
         # acceptor side
         acc = object.__new__(asceprovider.AssociationAcceptor)
         acc.ae = nd.StubAE({'1.2.840.10008.1.1': nd.served_service}, ['1.2.840.10008.1.2'])
         acc.dul = impl.StubDul()
-        acc.max_pdu_length = 16384
+        acc.max_pdu_length = own
         acc.sop_classes_as_scp = {}
         acc.accepted_contexts = {}
         acc.remote_ae = b''
@@ -324,13 +341,26 @@ def maxlen_position_cases():
         except Exception as e:  # noqa
             err = type(e).__name__
         lim = acc.max_pdu_length if isinstance(acc.max_pdu_length, int) else -1
-        out.append(dict(side='acceptor', sub_item_order=order, peer_announced=4096, own=16384, error=err, limit_after=lim,
-                        ok=(err is None and lim == 4096)))
+        # and it announces, in its own A-ASSOCIATE-AC, exactly one Maximum Length sub-item; the peer's other sub-items
+        # stay as they were
+        ann = None
+        if err is None and acc.dul.sent:
+            ac = pdu.AAssociateAcPDU.decode(acc.dul.sent[0].encode())
+            anns = [x.maximum_length_received for x in ac.variable_items[-1].user_data
+                    if isinstance(x, userdataitems.MaximumLengthSubItem)]
+            ann = anns[0] if len(anns) == 1 else -len(anns) - 1
+            others_in = [type(x).__name__ for x in subs if not isinstance(x, userdataitems.MaximumLengthSubItem)]
+            others_out = [type(x).__name__ for x in ac.variable_items[-1].user_data
+                          if not isinstance(x, userdataitems.MaximumLengthSubItem)]
+            if others_in != others_out:
+                ann = -1
+        out.append(dict(side='acceptor', sub_item_order=order, peer_announced=announced, own=own, error=err, limit_after=lim,
+                        announces=ann, ok=(err is None and lim == want and ann == want)))
         # requestor side: the same order in the peer's A-ASSOCIATE-AC
-        ae = nd.make_entity([('scu', ['1.2.840.10008.1.1'])], ['1.2.840.10008.1.2'], 16384)
+        ae = nd.make_entity([('scu', ['1.2.840.10008.1.1'])], ['1.2.840.10008.1.2'], own)
         req = object.__new__(asceprovider.AssociationRequester)
         req.ae = ae
-        req.max_pdu_length = 16384
+        req.max_pdu_length = own
         req.accepted_contexts = {}
         req.association_established = False
         req.context_def_list = ae.copy_context_def_list()
@@ -349,18 +379,14 @@ def maxlen_position_cases():
         except Exception as e:  # noqa
             err = type(e).__name__
         lim = req.max_pdu_length if isinstance(req.max_pdu_length, int) else -1
-        out.append(dict(side='requestor', sub_item_order=order, peer_announced=4096, own=16384, error=err, limit_after=lim,
-                        ok=(err is None and lim == 4096)))
+        out.append(dict(side='requestor', sub_item_order=order, peer_announced=announced, own=own, error=err, limit_after=lim,
+                        ok=(err is None and lim == want)))
     return out
 
 
 def main(tier, seed):
     dec = common.Decision('C10', tier, seed)
-    # the known failure is the AttributeError; silently ignoring the peer's announcement would be another violation
-    dec.matchers['maxlen_not_first'] = lambda r: (r.get('kind') == 'peer-maximum-not-found' and
-                                                  r.get('error') == 'AttributeError' and
-                                                  r.get('sub_item_order') in ('impl-first', 'maxlen-last-of-three'))
-    common.static_gate(dec, ['Properties/C10.v'], ['Proofs/NegotiationProofs.v', 'Proofs/DimseProofs.v'])
+    common.static_gate(dec, ['Properties/C10.v'], ['Proofs/NegotiationProofs.v', 'Proofs/DimseProofs.v', 'Proofs/MaxLenPduProofs.v', 'Proofs/NegoPduProofs.v'])
     rng = random.Random(seed)
     obs = []
     for own_r in GRID:
